@@ -76,6 +76,8 @@ def check(ctx, case):
     names = [f.name for f in case.prog.funcs]
     if len(set(names)) != len(names):
         ctx.label("overload-set-split-over-modules")
+    if case.prog.structs:
+        ctx.label("struct-type-shared-across-modules")
     single = adapter.compile_src(case.single_source())
     if not single.ok:
         ctx.discard("single-module-program-not-accepted:" + single.stage)
@@ -204,5 +206,5 @@ def _check_in_dir(ctx, case, ref, ref_prog):
 
 def run(R):
     R.hyp("partitions", genmod.modules_case(), check, examples=R.pick(40, 800), shrink="hyp")
-    for l in ("root-only-linked", "overload-set-split-over-modules", "shape:diamond", "shape:chain3", "import-not-first", "duplicate-definition-checked"):
+    for l in ("root-only-linked", "overload-set-split-over-modules", "struct-type-shared-across-modules", "shape:diamond", "shape:chain3", "import-not-first", "duplicate-definition-checked"):
         R.require(l)
